@@ -100,8 +100,10 @@ class FSimEnv:
     def caller(self):
         from windpyutils.parallel import pools, maps
         def shaped(k, data):
-            kind = (self.cfg.input_kind + k) % 4
-            return [lambda: data, lambda: list(data), lambda: tuple(data), lambda: iter(list(data))][kind]()
+            from .poolsim import SizedWrapper
+            kind = (self.cfg.input_kind + k) % 5
+            return [lambda: data, lambda: list(data), lambda: tuple(data), lambda: iter(list(data)),
+                    lambda: SizedWrapper(list(data), 1 if k % 2 else -1)][kind]()
 
         if self.cfg.mulp:
             for k, (n, cs) in enumerate(self.cfg.calls):
